@@ -308,12 +308,26 @@ func Parallel(n, p int, fn func(i int)) {
 	}
 	var wg sync.WaitGroup
 	ch := make(chan int)
+	var pmu sync.Mutex
+	var firstPanic interface{}
+	var firstStack string
 	for k := 0; k < p; k++ {
 		wg.Add(1)
 		go func() {
 			defer wg.Done()
 			for i := range ch {
-				fn(i)
+				func() {
+					defer func() {
+						if r := recover(); r != nil {
+							pmu.Lock()
+							if firstPanic == nil {
+								firstPanic, firstStack = r, stack()
+							}
+							pmu.Unlock()
+						}
+					}()
+					fn(i)
+				}()
 			}
 		}()
 	}
@@ -322,6 +336,10 @@ func Parallel(n, p int, fn func(i int)) {
 	}
 	close(ch)
 	wg.Wait()
+	if firstPanic != nil {
+		// a panic of the harness itself (not of the code under test): infrastructure error
+		panic(fmt.Sprintf("%v\n%s", firstPanic, firstStack))
+	}
 }
 
 func silence() {
